@@ -186,7 +186,7 @@ func ruleSkipInventory(c *Ctx, r *Report, clause string, table map[string]string
 		} else if w.decidesOnKnownInputs(c.VerifDir, s.Fn, s.Atoms) {
 			desc += ": not in the table, but it decides only on inputs this function's reviewed branches already decide on (a restructured conditional)"
 		} else {
-			viol = fmt.Sprintf("%s: %s leaves elements of %s out under a condition [%s] that is not in the reviewed table (tables/skips.json): whatever that loop produces (operations, parameters, properties, imports, entries, comment lines) silently loses the skipped elements", w.pos(s.Pos), s.Fn, s.Over, s.Cond)
+			viol = fmt.Sprintf("%s: %s leaves elements of %s out under a condition [%s] that is not in the reviewed table (tables/skips.json) and decides on inputs the reviewed function never branched on (%v): whatever that loop produces (operations, parameters, properties, imports, entries, comment lines) silently loses the skipped elements", w.pos(s.Pos), s.Fn, s.Over, s.Cond, w.unknownInputs(c.VerifDir, s.Fn, s.Atoms))
 		}
 		r.add(clause, "skips", s.Key, desc, []string{s.Fn}, []string{w.pos(s.Pos)}, viol)
 	}
